@@ -2,15 +2,15 @@
 # the whole-program check sees each feature area at least through these (the per-property checks carry the depth).
 from . import calls, scopes, control, heap, objects, destructure, seq, equality, render, errors
 PICK = {
-    calls: ['this-not-dynamic', 'this-rest-method', 'this-routes', 'self-call-in-args', 'param-fresh', 'this-enclosing', 'this-through-list', 'arity-after-args', 'callee-kinds'],
-    scopes: ['capture-then-shadow', 'pattern-names-see-outer', 'closure-live', 'fresh-per-iteration', 'later-decl-visible', 'scope-after-early-exit', 'shadow-init-reads-outer', 'escaped-closure-calls-sibling', 'dup-params-in-literals'],
-    control: ['if-chain-effects', 'for-pair-kept', 'mutate-list-in-for', 'return-or-null', 'empty-branches', 'jumps-in-literals', 'fn-forlist', 'top-while', 'fn-call'],
-    heap: ['store-self-list', 'spread-then-mutate', 'closure-shares', 'for-pair-fresh'],
+    calls: ['this-not-dynamic', 'this-rest-method', 'this-routes', 'self-call-in-args', 'param-fresh', 'this-enclosing', 'this-through-list', 'arity-after-args', 'callee-kinds', 'this-in-slot-only'],
+    scopes: ['capture-then-shadow', 'pattern-names-see-outer', 'closure-live', 'fresh-per-iteration', 'later-decl-visible', 'scope-after-early-exit', 'shadow-init-reads-outer', 'escaped-closure-calls-sibling', 'dup-params-in-literals', 'shorthand-sees-outer', 'pattern-reads-earlier-name'],
+    control: ['if-chain-effects', 'for-pair-kept', 'mutate-list-in-for', 'return-or-null', 'empty-branches', 'jumps-in-literals', 'for-over-range', 'fn-forlist', 'top-while', 'fn-call'],
+    heap: ['store-self-list', 'spread-then-mutate', 'closure-shares', 'for-pair-fresh', 'slice-shares-elements', 'assign-equal-distinct'],
     objects: ['key-expression-forms', 'literal-order', 'self-key', 'special-keys'],
     destructure: ['swap', 'rest-fresh', 'law-collect', 'law-obj-collect', 'obj-decl-20', 'obj-decl-19', 'param-underscores', 'misplaced'],
     seq: ['list-range-assign-self-2', 'frame-index-assign', 'concat-empty-frame'],
-    equality: ['alias-vs-copy', 'functions', 'self-containing'],
-    render: ['aliasing', 'scalars', 'raw-strings', 'empty-strings'],
+    equality: ['alias-vs-copy', 'functions', 'self-containing', 'long-lists', 'list-vs-object'],
+    render: ['aliasing', 'scalars', 'raw-strings', 'empty-strings', 'bracket-strings'],
     errors: ['output-so-far', 'kinds-top'],
 }
 def templates(tier, seed=0):
